@@ -541,6 +541,10 @@ def run(chk):
     chk.absorb(run_stream(__name__, "kernels", chk.tier, chk.seed, 240 if quick else 8000), kind="case", shrink=shrink_kernel)
     chk.absorb(run_stream(__name__, "programs", chk.tier, chk.seed, 6400 if quick else 200000), kind="program",
                shrink=shrink_program)
+    if not quick:
+        from ..runner import coverage_guided
+
+        coverage_guided(chk, __name__, "programs", 420, procs=8, shrink=shrink_program, kind="program")
 
 
 def health(cov):
